@@ -177,6 +177,9 @@ func multiDefectCases(runs int) []c08Case {
 		{Files: y("parameters:\n  a: \"%b%\"\n  b: \"%a%\"\n  c: \"%d%\"\n  d: \"%c%\"\n  e: \"%e%\"\nservices:\n  s1: {constructor: NewX, arguments: [\"@s2\"]}\n  s2: {constructor: NewX, arguments: [\"@s1\", \"@s3\"]}\n  s3: {constructor: NewX, arguments: [\"@s1\"], tags: [t]}\n  s4: {constructor: NewX, arguments: [\"!tagged t\"], tags: [t]}\n"), Runs: runs, Labels: []string{"multi:cycles"}},
 		{Files: y("parameters:\n  a1: \"x%a2%\"\n  a2: \"%a1%\"\n  b1: \"%b2%y\"\n  b2: \"%b1%\"\n  c1: \"%c2%\"\n  c2: \"%c1%\"\n  d1: \"%d2%\"\n  d2: \"%d1%\"\n  e1: \"%e1%\"\nservices:\n  user: {constructor: NewX, arguments: [\"%a1%\", \"%b1%\", \"%c1%\"], fields: {F: \"%d1%\", G: \"%e1%\"}, calls: [[M, [\"%b2%\", \"%a2%\"]]], tags: [t]}\n  other: {constructor: NewX, arguments: [\"%d2%\", \"%c2%\", \"@user\"]}\ndecorators:\n  - {tag: t, decorator: Dec, arguments: [\"%e1%\", \"%d1%\", \"%c1%\", \"%b1%\", \"%a1%\"]}\n"), Runs: runs, Labels: []string{"multi:independent-param-cycles-reached-from-one-service-and-decorator"}},
 		{Files: y("services:\n  s1: {constructor: NewX, getter: GetX}\n  s2: {constructor: NewX, getter: GetX}\n  s3: {constructor: NewX, getter: GetX}\n  s4: {constructor: NewX, getter: GetX}\n  r1: {constructor: NewX, getter: GetY, tags: [t, t, t, u, u, u]}\n  r2: {constructor: NewX, getter: GetY, tags: [u, t, u, t]}\n  r3: {constructor: NewX, getter: GetY}\n  q1: {constructor: NewX, getter: Get}\n  q2: {constructor: NewX, getter: Get}\n  q3: {constructor: NewX, getter: MustZ}\n  q4: {constructor: NewX, getter: MustZ}\n  q5: {constructor: NewX, getter: MustZ}\n"), Runs: runs, Labels: []string{"multi:three-or-more-services-per-duplicate-getter-and-repeated-tags"}},
+		// keys that a "natural" or numeric-aware comparison would treat as equal: zero padding, numbers beyond 2^64, case
+		{Files: y("meta:\n  imports: {a1: \"p/a1\", a01: \"p/a01\", a001: \"p/a001\"}\nparameters:\n  p1: 1\n  p01: 2\n  p001: 3\n  p10: 4\n  p2: 5\n  id18446744073709551616: 6\n  id18446744073709551617: 7\n  id36893488147419103232: 8\n  Key: 9\n  key: 10\n  KEY: 11\nservices:\n  s7: {constructor: a1.New, getter: G7, tags: [t1, t01, t001]}\n  s07: {constructor: a01.New, getter: G07, tags: [t001, t01, t1]}\n  s007: {constructor: a001.New, getter: G007, fields: {F1: 1, F01: 2, F001: 3}}\n  S7: {constructor: a1.New2, getter: g7}\n"), Runs: runs, Labels: []string{"valid:keys-equal-under-natural-or-case-insensitive-order"}},
+		{Files: y("parameters:\n  p1: \"%x1%\"\n  p01: \"%x01%\"\n  p001: \"%x001%\"\n  id18446744073709551616: \"%y%\"\n  id18446744073709551617: \"%y%\"\nservices:\n  s7: {constructor: New, arguments: [\"@g7\", \"@g07\", \"@g007\"]}\n  s07: {constructor: New, arguments: [\"@g007\", \"@g7\"]}\n  s007: {constructor: New, fields: {F1: \"@h1\", F01: \"@h01\", F001: \"%z001%\"}}\n"), Runs: runs, Labels: []string{"multi:missing-names-equal-under-natural-order"}},
 		{Files: y("parameters:\n  a: \"%m1% %m2%\"\n  b: \"%m3%\"\nservices:\n  s1: {constructor: NewX, arguments: [\"@g1\", \"%m4%\", \"@g2\"], fields: {B: \"@g3\", A: \"%m5%\"}}\n  s2: {constructor: NewX, calls: [[M, [\"@g4\", \"%m6%\"]]], tags: [t]}\ndecorators:\n  - {tag: t, decorator: Dec, arguments: [\"@g5\", \"%m7%\"]}\n  - {tag: t, decorator: Dec, arguments: [\"@g6\"]}\n"), Runs: runs, Labels: []string{"multi:missing-names"}},
 		{Files: y("parameters:\n  \"bad 1\": 1\n  \"bad 2\": [1]\n  ok: {a: 1}\nservices:\n  \"bad svc\": {}\n  s1: {constructor: \"not a func\", getter: MustX, tags: [t, t, \"bad tag\"], fields: {\"1a\": 1, \"2b\": [1]}, calls: [[\"M-\", [[1]]]]}\n  s2: {value: \"{}\", type: \"**\", arguments: [1]}\ndecorators:\n  - {tag: \"bad tag\", decorator: \"not a func\", arguments: [[1]]}\n  - {tag: \"\", decorator: \"\"}\n"), Runs: runs, Labels: []string{"multi:grammar"}},
 		{Files: y("parameters:\n  a: \"%x(%\"\n  b: \"%unknown()%\"\n  c: \"%\"\n  d: \"%a b%\"\n  e: \"%f()% %g()%\"\n"), Runs: runs, Labels: []string{"multi:tokens"}},
